@@ -8,6 +8,7 @@ import pendulum
 from pendulum.duration import Duration
 from pendulum.parsing import _Interval
 from pendulum.parsing import parse as base_parse
+from pendulum.parsing.exceptions import ParserError
 from pendulum.tz.timezone import UTC
 
 
@@ -44,6 +45,16 @@ def _parse(
 
     parsed = base_parse(text, **options)
 
+    try:
+        return _wrap(parsed, **options)
+    except OverflowError:
+        # A duration or an interval endpoint that cannot be represented
+        raise ParserError(f"Unable to parse string [{text}]")
+
+
+def _wrap(
+    parsed: t.Any, **options: t.Any
+) -> Date | DateTime | Time | Duration | Interval[DateTime]:
     if isinstance(parsed, datetime.datetime):
         return pendulum.datetime(
             parsed.year,
